@@ -126,6 +126,24 @@ def rule_WT1(ctx, tier):
             rr.fail("response-filtered-before-parsing:process_post_response", "`process_post_response` looks at `%s` of a response that did arrive and can turn it into an error without parsing the body: a legitimate reply (a long locator list, the tower's own error object) never reaches the caller" % ", ".join(sorted({shortfn(x) for x in insp})), where=fb_.span)
         elif any((call_target(t) or "").endswith("reqwest::Response::json") for bb, t in fb_.calls()):
             rr.ok("process_post_response parses the body of whatever arrived")
+    # ... and what it parses INTO has room for the tower's error object: every endpoint answers either its reply or
+    # `{"error": .., "error_code": ..}`; a caller that parses straight into the reply type turns a well-formed error into
+    # "missing field" and loses the tower's message and code (subscription expired, slots exhausted, service unavailable)
+    n_parse = 0
+    for bid, b_ in P.bodies.items():
+        if not bid.startswith(("watchtower_plugin::", "watchtower_client::")) or "::tests::" in bid:
+            continue
+        for bb, t in b_.calls():
+            if (call_target(t) or "").endswith("net::http::process_post_response"):
+                n_parse += 1
+                ta = (t.get("targs") or [""])[0]
+                who = shortfn(bid.split("::{closure")[0])
+                if "ApiResponse<" in ta:
+                    rr.ok("%s parses the reply as ApiResponse<..>" % who)
+                else:
+                    rr.fail("error-reply-unparsable:%s" % who, "`%s` parses the tower's answer straight into `%s`: the tower's error object (`error`, `error_code`) does not fit it, so a documented error reply becomes a DeserializeError and its code is lost; the other endpoints parse `ApiResponse<T>`" % (who, ta.split("::")[-1]), where=b_.line_of(bb))
+    if n_parse < 4:
+        rr.fail("parse-sites=%d" % n_parse, "expected the four endpoint callers to go through process_post_response")
     rr.require_floor(13, "WT1 instances")
     # whatever the tower answered reaches the parser: once `send()` succeeded, `request` hands the response on as it is — the
     # HTTP status is advisory, the JSON body (ApiError / reply) is the answer, also for the tower's own 503
